@@ -124,6 +124,14 @@ def gen(rng, tier, i):
         if oc == "up-http-ok":
             expect = "ok"
             srv["default_ops"] = sc.upstream_handshake(ci) + tail
+            if rng.random() < 0.4:
+                # other well-formed ways of saying yes: empty reason phrase, HTTP/1.0, extra headers
+                yes = rng.choice([b"HTTP/1.1 200 \r\n\r\n", b"HTTP/1.0 200 Connection established\r\n\r\n", b"HTTP/1.1 200 OK\r\nVia: 1.1 up\r\nX-A: b\r\n\r\n",
+                                  b"HTTP/1.1 200 Connection Established\r\nProxy-Agent: x\r\n\r\n"])
+                for o in srv["default_ops"]:
+                    if o["op"] == "send":
+                        o["hex"] = yes.hex()
+                        break
         elif oc == "up-http-403":
             code = rng.choice([403, 407, 503, 500, 302, 199])
             body = b"x" * rng.choice([0, 5, 300])
@@ -132,7 +140,7 @@ def gen(rng, tier, i):
             extra = b"".join(b"X-Why-%d: %s\r\n" % (n, b"because " * rng.choice([1, 10, 60])) for n in range(rng.choice([0, 0, 3, 10, 40])))
             srv["default_ops"] = [op("recv_http_head", label="upreq"), send(b"HTTP/1.1 %d %s\r\n%sContent-Length: %d\r\n\r\n" % (code, reason, extra, len(body)) + body)] + tail
         elif oc == "up-http-garbage":
-            junk = rng.choice([b"\x00\x01\x02garbage\r\n\r\n", b"HTTP/1.1 abc OK\r\n\r\n", b"200 OK\r\n\r\n", b"HTTP/1.1 200\r\n\r\n", b"\r\n\r\n", b"HTTP/1.1 200 OK\r\nbadheader\r\n\r\n"])
+            junk = rng.choice([b"\x00\x01\x02garbage\r\n\r\n", b"HTTP/1.1 abc OK\r\n\r\n", b"200 OK\r\n\r\n", b"\r\n\r\n", b"HTTP/1.1 200 OK\r\nbadheader\r\n\r\n"])
             srv["default_ops"] = [op("recv_http_head", label="upreq"), send(junk)] + tail
         elif oc == "up-http-closes":
             srv["default_ops"] = [op("recv_http_head", label="upreq"), op("close")]
